@@ -4,6 +4,7 @@ import (
 	"errors"
 	"io"
 	"os"
+	"sync"
 	"time"
 )
 
@@ -26,6 +27,7 @@ var ErrInjected = errors.New("injected I/O fault")
 // zero-length read returns (0, nil) everywhere), WriteAt extends the file,
 // zero-length writes are accepted.
 type MemFile struct {
+	mu    sync.Mutex // the StoreFile must be concurrency-safe (free-running validation pass)
 	Data  []byte
 	Log   []IOCall
 	LogOn bool
@@ -116,6 +118,8 @@ func (f *MemFile) record(c IOCall) {
 
 func (f *MemFile) ReadAt(p []byte, off int64) (int, error) {
 	YieldIO()
+	f.mu.Lock()
+	defer f.mu.Unlock()
 	f.Calls++
 	c := IOCall{Seq: f.Calls, Op: "R", Off: off, Len: len(p), Label: f.Label}
 	if fail, _ := f.fault(false, len(p)); fail {
@@ -157,6 +161,8 @@ func (f *MemFile) apply(p []byte, off int64) {
 
 func (f *MemFile) WriteAt(p []byte, off int64) (int, error) {
 	YieldIO()
+	f.mu.Lock()
+	defer f.mu.Unlock()
 	f.Calls++
 	c := IOCall{Seq: f.Calls, Op: "W", Off: off, Len: len(p), Label: f.Label}
 	if off < 0 {
@@ -180,6 +186,8 @@ func (f *MemFile) WriteAt(p []byte, off int64) (int, error) {
 
 func (f *MemFile) Stat() (os.FileInfo, error) {
 	YieldIO()
+	f.mu.Lock()
+	defer f.mu.Unlock()
 	f.Calls++
 	c := IOCall{Seq: f.Calls, Op: "S", Label: f.Label}
 	if fail, _ := f.fault(false, 0); fail {
@@ -195,6 +203,8 @@ func (f *MemFile) Stat() (os.FileInfo, error) {
 
 func (f *MemFile) Truncate(size int64) error {
 	YieldIO()
+	f.mu.Lock()
+	defer f.mu.Unlock()
 	f.Calls++
 	c := IOCall{Seq: f.Calls, Op: "T", Off: size, Label: f.Label}
 	if fail, _ := f.fault(false, 0); fail {
